@@ -2,6 +2,26 @@
 HOOK_COMMITS = ["645c65a", "e34ba59", "f51c5d9", "f6ed18e", "079d75a", "f4d99a1"]
 NOT_APPLICABLE = {}
 LEVELS = {
+    "C07": {
+        "text": "Proof: C07_agree (all keypers that succeed on the same chain hold the same key polynomial), C07_share_matches, "
+                "C07_decrypts (any t shares, via C01's Lagrange theorem), C07_all_honest, C07_tolerates, C07_no_abort, over a transcription "
+                "of the result computation the keyper runs at finalization. Tied to the code by complete key generations over the real "
+                "shuttermint app and real keyper loops with scripted Byzantine keypers; agreement and decryption are checked directly, "
+                "outcomes are compared with the model.",
+        "design_ref": "DESIGN.md §4 C07",
+        "note": "Trusted: Lean kernel + Mathlib; dkgrig (in-process shuttermint, pgfake/kdb); puredkg is an external library, transcribed and compared; commitment binding as hypothesis.",
+        "technique": "Lean 4 + Mathlib theorems over the key generation outcome + differential complete DKG runs over the real ABCI app and keyper loops with scripted Byzantine strategies",
+    },
+    "C08": {
+        "text": "Proof: C08_same_db (any interleaving of crashes leaves the committed database of the crash-free run), C08_exactly_once, "
+                "C08_outbox (queue order, no loss), C08_scheduled_once, for every key generation logic and every codec that reads back "
+                "what it stored. Tied to the code by killing a real keyper loop at database round trips and around broadcasts and "
+                "comparing outcome, trace and model; the read-back hypothesis is tested on every stored state. The defect that broke it "
+                "(gob losing nil entries) was repaired.",
+        "design_ref": "DESIGN.md §4 C08",
+        "note": "Trusted: Lean kernel; dkgrig/pgfake crash semantics; the key generation logic is abstract in the model.",
+        "technique": "Lean 4 theorems by induction over crash/retry operation sequences + crash injection at database round trips of a real keyper loop",
+    },
     "C15": {
         "text": "Proof: C15_exact (in every reachable state of the syncer model, position on the canonical chain => rows are exactly "
                 "the chain's admissible events from the first synced block to the position), C15_atomic, and the two domain lemmas, by an "
